@@ -2,13 +2,15 @@
 """seeded_all.py [seed ...]: for every /verif/seeded/<ID>[-rN], apply patch.diff to a scratch copy of /repo and run the
 property's own check (quick tier) against it with each VERIF_SEED; prints one line per (seeded change, seed).
 Evidence and replays of these runs go to a scratch directory (VERIF_OUT), never to /verif.  SEEDED_PAR = parallel jobs (4)."""
-import os, shutil, subprocess, sys, tempfile
+import json, os, shutil, subprocess, sys, tempfile
 from concurrent.futures import ThreadPoolExecutor
 seeds = sys.argv[1:] or ["0"]
 root = "/verif/seeded"
 
 
 def one(pid):
+    if json.load(open(os.path.join(root, pid, "meta.json"))).get("not_a_violation_on_this_tree"):
+        return ["%s kept for the record: does not break the property on this tree, the check must stay silent" % pid], 0
     d = tempfile.mkdtemp(prefix="seeded-")
     out = tempfile.mkdtemp(prefix="seeded-out-")
     lines, miss = [], 0
